@@ -33,6 +33,8 @@
 #include <sys/wait.h>
 #include <unistd.h>
 
+#include <errno.h>
+#include <sys/stat.h>
 #define MAXI 4
 #define MAXOPS 64
 #define MAXSTEPS 4096
@@ -42,16 +44,53 @@
 #define MIRCAP (256 * 1024)
 #define OUTMAX 600
 
+/* ---- OS-call interception (link with -Wl,--wrap=...): counts the calls the LIBRARY makes and fails the armed one ---- */
+enum { W_MALLOC, W_MMAP, W_MREMAP, W_MUNMAP, W_OPEN, W_FSTAT, W_READ, W_CLOSE, W_FOPEN, W_FWRITE, W_FCLOSE, W_FREE, W_N };
+static const char *WNAME[W_N] = {"malloc", "mmap", "mremap", "munmap", "open", "fstat", "read", "close", "fopen", "fwrite", "fclose", "free"};
+static int in_lib, arm_call = -1, arm_nth, arm_short, fired;
+static int seen[W_N];
+static char callog[256]; static int ncallog;
+static int hit(int w) {
+  if (!in_lib) return 0;
+  if (ncallog < 250) callog[ncallog++] = (char)('a' + w);
+  seen[w]++;
+  if (w == arm_call && seen[w] == arm_nth) { fired = 1; arm_call = -1; return 1; }
+  return 0;
+}
+void *__real_malloc(size_t); void __real_free(void *);
+void *__real_mmap(void *, size_t, int, int, int, off_t); void *__real_mremap(void *, size_t, size_t, int, ...);
+int __real_munmap(void *, size_t); int __real_open(const char *, int, ...); int __real_fstat(int, struct stat *);
+ssize_t __real_read(int, void *, size_t); int __real_close(int);
+FILE *__real_fopen(const char *, const char *); size_t __real_fwrite(const void *, size_t, size_t, FILE *); int __real_fclose(FILE *);
+void *__wrap_malloc(size_t n) { if (hit(W_MALLOC)) { errno = ENOMEM; return NULL; } return __real_malloc(n); }
+void __wrap_free(void *p) { hit(W_FREE); __real_free(p); }
+void *__wrap_mmap(void *a, size_t l, int p, int f, int fd, off_t o) { if (hit(W_MMAP)) { errno = ENOMEM; return MAP_FAILED; } return __real_mmap(a, l, p, f, fd, o); }
+void *__wrap_mremap(void *a, size_t o, size_t n, int f, ...) { if (hit(W_MREMAP)) { errno = ENOMEM; return MAP_FAILED; } return __real_mremap(a, o, n, f); }
+int __wrap_munmap(void *a, size_t l) { if (hit(W_MUNMAP)) { errno = EINVAL; return -1; } return __real_munmap(a, l); }
+int __wrap_open(const char *p, int fl, ...) { if (hit(W_OPEN)) { errno = EMFILE; return -1; } return __real_open(p, fl, 0); }
+int __wrap_fstat(int fd, struct stat *st) { if (hit(W_FSTAT)) { errno = EIO; return -1; } return __real_fstat(fd, st); }
+ssize_t __wrap_read(int fd, void *b, size_t n) { if (hit(W_READ)) { errno = EIO; return -1; } return __real_read(fd, b, n); }
+int __wrap_close(int fd) { if (hit(W_CLOSE)) { __real_close(fd); errno = EIO; return -1; } return __real_close(fd); }
+FILE *__wrap_fopen(const char *p, const char *m) { if (hit(W_FOPEN)) { errno = EACCES; return NULL; } return __real_fopen(p, m); }
+size_t __wrap_fwrite(const void *b, size_t sz, size_t n, FILE *f) {
+  if (f != stderr && f != stdout && hit(W_FWRITE)) { errno = ENOSPC; if (arm_short && n > 1) return __real_fwrite(b, sz, n / 2, f); return 0; }
+  return __real_fwrite(b, sz, n, f);
+}
+int __wrap_fclose(FILE *f) { if (hit(W_FCLOSE)) { __real_fclose(f); errno = ENOSPC; return EOF; } return __real_fclose(f); }
+#define LIB(x) do { in_lib = 1; x; in_lib = 0; } while (0)
+
 struct step { int k; unsigned pos, len; int cap; };
 struct res {
   int used, ret, off0, off1, dest, lo, hi, outside, nout, moved, cap_after;
   unsigned char out[OUTMAX];
   unsigned hash; int hlen;
-  int nsteps; struct step steps[48]; int steps_total;
+  int nsteps; struct step steps[48]; int steps_total; int lastcap;
   int twin, tret, toff1, tdest, tnout; unsigned char tout[OUTMAX]; unsigned thash;
   int mret, moff1; unsigned mhash; int mir;
   int nprobe; unsigned char probe[4][16]; int plen[4];
   unsigned char rax[8];
+  int inj; char calls[64]; int skipped;
+  long flen; unsigned fhash, bhash; int blen;
 };
 struct op { char kind; int i, a, b, c, d, e; char flags[8]; char tag[32]; char s[16]; char *text; };
 
@@ -119,18 +158,40 @@ static void run_pass(struct op *ops, int nops, unsigned char fill, struct res *r
     memset(x, 0, sizeof *x);
     x->used = 1; x->lo = x->hi = -1;
     struct slot *s = (o->i >= 1 && o->i <= MAXI) ? &sl[o->i] : NULL;
+    fired = 0; ncallog = 0;
+    if (s && !s->al && strchr("DOKFGPXANTUBM", o->kind)) { x->skipped = 1; continue; }
     switch (o->kind) {
     case 'C':
-      if (o->a) { s->ext = 1; s->cap = o->b; s->buf = ext_region(o->b, fill, &s->region, &s->rlen); s->al = asm_create_instance(s->buf, o->b); }
-      else { s->ext = 0; s->cap = 0; s->al = asm_create_instance(NULL, 0); s->buf = asm_get_code(s->al); }
+      if (o->a) { s->ext = 1; s->cap = o->b; s->buf = ext_region(o->b, fill, &s->region, &s->rlen); LIB(s->al = asm_create_instance(s->buf, o->b)); }
+      else { s->ext = 0; s->cap = 0; LIB(s->al = asm_create_instance(NULL, 0)); s->buf = s->al ? asm_get_code(s->al) : NULL; }
       x->ret = s->al ? 0 : 1;
       break;
+    case 'Z':
+      arm_call = -1; arm_short = 0;
+      for (int w = 0; w < W_N; w++) if (!strcmp(o->s, WNAME[w])) arm_call = w;
+      if (!strcmp(o->s, "fwrite-short")) { arm_call = W_FWRITE; arm_short = 1; }
+      arm_nth = o->a; memset(seen, 0, sizeof seen);
+      break;
+    case 'B': {
+      int blen = asm_get_offset(s->al);
+      LIB(x->ret = asm_create_bin_file(s->al, o->text));
+      x->blen = blen; x->bhash = hash30(asm_get_code(s->al), blen > 0 ? blen : 0);
+      x->flen = -1;
+      FILE *f = __real_fopen(o->text, "rb");
+      if (f) {
+        static unsigned char fb[MIRCAP];
+        size_t n = fread(fb, 1, sizeof fb, f);
+        __real_fclose(f);
+        x->flen = (long)n; x->fhash = hash30(fb, (int)n);
+        unlink(o->text);
+      }
+      break; }
     case 'M': {
       unsigned char *reg; size_t rl;
       s->mbuf = ext_region(MIRCAP - PRE - POST - PAGE, fill, &reg, &rl);
       s->mir = asm_create_instance(s->mbuf, MIRCAP - PRE - POST - PAGE);
       break; }
-    case 'D': asm_destroy_instance(s->al); if (s->mir) asm_destroy_instance(s->mir); if (s->ext) munmap(s->region, s->rlen); memset(s, 0, sizeof *s); break;
+    case 'D': LIB(x->ret = asm_destroy_instance(s->al)); if (s->mir) asm_destroy_instance(s->mir); if (s->ext) munmap(s->region, s->rlen); memset(s, 0, sizeof *s); break;
     case 'O': setter(s->al, o->s, o->a); if (s->mir) setter(s->mir, o->s, o->a); break;
     case 'K': asm_set_chunk_size(s->al, (size_t)(long)o->a); if (s->mir) asm_set_chunk_size(s->mir, (size_t)(long)o->a); break;
     case 'F': asm_set_offset(s->al, o->a); if (s->mir) asm_set_offset(s->mir, o->a); break;
@@ -154,7 +215,9 @@ static void run_pass(struct op *ops, int nops, unsigned char fill, struct res *r
       unsigned long v = f();
       memcpy(x->rax, &v, 8);
       break; }
-    case 'A': case 'N': {
+    case 'A': case 'N': case 'T': case 'U': {
+      int isfile = o->kind == 'T' || o->kind == 'U';
+      int iscount = o->kind == 'N' || o->kind == 'U';
       int off0 = asm_get_offset(s->al);
       unsigned char *before = asm_get_code(s->al);
       int scap = s->ext ? s->cap : 0;
@@ -167,15 +230,25 @@ static void run_pass(struct op *ops, int nops, unsigned char fill, struct res *r
       x->off0 = off0; x->dest = -7;
       cur_al = s->al; ncur = 0;
       char *txt = strdup(o->text);
-      if (o->kind == 'N') x->ret = asm_assemble_string_counting_chunks(s->al, txt, o->a, &x->dest);
-      else x->ret = asm_assemble_str(s->al, txt);
-      free(txt);
+      if (o->kind == 'N') LIB(x->ret = asm_assemble_string_counting_chunks(s->al, txt, o->a, &x->dest));
+      else if (o->kind == 'A') LIB(x->ret = asm_assemble_str(s->al, txt));
+      else if (o->kind == 'U') LIB(x->ret = asm_assemble_file_counting_chunks(s->al, txt, o->a, &x->dest));
+      else LIB(x->ret = asm_assemble_file(s->al, txt));
+      __real_free(txt);
+      /* the string twin of a file call assembles the file's contents read by the harness */
+      char *content = NULL;
+      if (isfile) {
+        FILE *cf = __real_fopen(o->text, "rb");
+        if (cf) { static char cbuf[1 << 20]; size_t cn = fread(cbuf, 1, sizeof cbuf - 1, cf); cbuf[cn] = 0; __real_fclose(cf); content = cbuf; }
+      }
+      const char *twtext = isfile ? content : o->text;
       cur_al = NULL;
       x->off1 = asm_get_offset(s->al);
       unsigned char *after = asm_get_code(s->al);
       x->moved = after != before;
       s->buf = s->ext ? s->buf : after;
       x->steps_total = ncur;
+      x->lastcap = ncur > 0 ? cur_steps[(ncur < MAXSTEPS ? ncur : MAXSTEPS) - 1].cap : -1;
       x->nsteps = ncur < 48 ? ncur : 48;
       memcpy(x->steps, cur_steps, x->nsteps * sizeof(struct step));
       /* a step that lies outside its capacity is kept even when the list is truncated */
@@ -196,14 +269,14 @@ static void run_pass(struct op *ops, int nops, unsigned char fill, struct res *r
       else if (end >= off0 && end - off0 <= OUTMAX && (!s->ext || end <= s->cap)) { x->nout = end - off0; memcpy(x->out, after + off0, x->nout); }
       else x->nout = -1;
       if (s->mir) {
-        char *t2 = strdup(o->text); int d2 = 0;
+        char *t2 = strdup(twtext ? twtext : ""); int d2 = 0;
         x->mir = 1;
-        x->mret = o->kind == 'N' ? asm_assemble_string_counting_chunks(s->mir, t2, o->a, &d2) : asm_assemble_str(s->mir, t2);
+        x->mret = iscount ? asm_assemble_string_counting_chunks(s->mir, t2, o->a, &d2) : asm_assemble_str(s->mir, t2);
         free(t2);
         x->moff1 = asm_get_offset(s->mir);
         x->mhash = x->mret == 0 && x->moff1 >= 0 ? hash30(s->mbuf, x->moff1) : 0;
       }
-      if (strchr(o->flags, 't') && have_tw && s->ext) {
+      if (strchr(o->flags, 't') && have_tw && s->ext && twtext) {
         /* fresh twin: same geometry, same prior contents, configured from the script */
         unsigned char *treg; size_t trl;
         unsigned char *tb = ext_region(s->cap, fill, &treg, &trl);
@@ -212,9 +285,9 @@ static void run_pass(struct op *ops, int nops, unsigned char fill, struct res *r
         asm_mov_imm(t, optv(tw[0])); asm_sib_index_base_swap(t, optv(tw[1])); asm_sib_no_base(t, optv(tw[2]));
         if (tw[3] >= 2) asm_set_chunk_size(t, tw[3]);
         asm_set_offset(t, tw[4]);
-        char *t3 = strdup(o->text);
+        char *t3 = strdup(twtext);
         x->twin = 1; x->tdest = -7;
-        x->tret = o->kind == 'N' ? asm_assemble_string_counting_chunks(t, t3, o->a, &x->tdest) : asm_assemble_str(t, t3);
+        x->tret = iscount ? asm_assemble_string_counting_chunks(t, t3, o->a, &x->tdest) : asm_assemble_str(t, t3);
         free(t3);
         x->toff1 = asm_get_offset(t);
         int tend = x->tret == 0 ? x->toff1 : off0;
@@ -230,6 +303,8 @@ static void run_pass(struct op *ops, int nops, unsigned char fill, struct res *r
       break; }
     default: break;
     }
+    x->inj = fired;
+    { int nc = ncallog < 63 ? ncallog : 63; memcpy(x->calls, callog, nc); x->calls[nc] = 0; }
   }
   for (int i = 1; i <= MAXI; i++) if (sl[i].al) { asm_destroy_instance(sl[i].al); if (sl[i].mir) asm_destroy_instance(sl[i].mir); }
 }
@@ -246,21 +321,33 @@ static void print_events(const char *sid, struct op *ops, int nops, struct res *
     struct op *o = &ops[k];
     struct res *x = &a[k], *y = &b[k];
     switch (o->kind) {
-    case 'C': printf("{\"e\":\"Create\",\"s\":\"%s\",\"i\":%d,\"ext\":%s,\"cap\":%d,\"ret\":%d}\n", sid, o->i, o->a ? "true" : "false", o->a ? o->b : 0, x->ret); break;
-    case 'M': printf("{\"e\":\"Mirror\",\"i\":%d}\n", o->i); break;
-    case 'D': printf("{\"e\":\"Destroy\",\"i\":%d}\n", o->i); break;
-    case 'O': printf("{\"e\":\"Opt\",\"i\":%d,\"s\":\"%s\",\"v\":%d}\n", o->i, o->s, o->a); break;
-    case 'K': printf("{\"e\":\"SetChunk\",\"i\":%d,\"c\":%d}\n", o->i, o->a); break;
-    case 'F': printf("{\"e\":\"SetOffset\",\"i\":%d,\"k\":%d}\n", o->i, o->a); break;
-    case 'G': printf("{\"e\":\"SetDebug\",\"i\":%d,\"b\":%d}\n", o->i, o->a); break;
+    case 'C': printf("{\"e\":\"Create\",\"s\":\"%s\",\"i\":%d,\"ext\":%s,\"cap\":%d,\"ret\":%d,\"inj\":%s,\"calls\":\"%s\"}\n", sid, o->i, o->a ? "true" : "false", o->a ? o->b : 0, x->ret, x->inj ? "true" : "false", x->calls); break;
+    case 'Z': printf("{\"e\":\"Arm\",\"call\":\"%s\",\"nth\":%d}\n", o->s, o->a); break;
+    case 'B': if (x->skipped) { printf("{\"e\":\"Skipped\",\"i\":%d}\n", o->i); break; }
+      printf("{\"e\":\"BinFile\",\"i\":%d,\"ret\":%d,\"blen\":%d,\"bhash\":%u,\"flen\":%ld,\"fhash\":%u,\"inj\":%s,\"calls\":\"%s\"}\n", o->i, x->ret, x->blen, x->bhash, x->flen, x->fhash, x->inj ? "true" : "false", x->calls); break;
+    case 'M': if (x->skipped) { printf("{\"e\":\"Skipped\",\"i\":%d}\n", o->i); break; }
+      printf("{\"e\":\"Mirror\",\"i\":%d}\n", o->i); break;
+    case 'D': if (x->skipped) { printf("{\"e\":\"Skipped\",\"i\":%d}\n", o->i); break; }
+      printf("{\"e\":\"Destroy\",\"i\":%d,\"ret\":%d,\"inj\":%s,\"calls\":\"%s\"}\n", o->i, x->ret, x->inj ? "true" : "false", x->calls); break;
+    case 'O': if (x->skipped) { printf("{\"e\":\"Skipped\",\"i\":%d}\n", o->i); break; }
+      printf("{\"e\":\"Opt\",\"i\":%d,\"s\":\"%s\",\"v\":%d}\n", o->i, o->s, o->a); break;
+    case 'K': if (x->skipped) { printf("{\"e\":\"Skipped\",\"i\":%d}\n", o->i); break; }
+      printf("{\"e\":\"SetChunk\",\"i\":%d,\"c\":%d}\n", o->i, o->a); break;
+    case 'F': if (x->skipped) { printf("{\"e\":\"Skipped\",\"i\":%d}\n", o->i); break; }
+      printf("{\"e\":\"SetOffset\",\"i\":%d,\"k\":%d}\n", o->i, o->a); break;
+    case 'G': if (x->skipped) { printf("{\"e\":\"Skipped\",\"i\":%d}\n", o->i); break; }
+      printf("{\"e\":\"SetDebug\",\"i\":%d,\"b\":%d}\n", o->i, o->a); break;
     case 'W': break;
     case 'P':
+      if (x->skipped) { printf("{\"e\":\"Skipped\",\"i\":%d}\n", o->i); break; }
       printf("{\"e\":\"Probe\",\"i\":%d,\"codes\":[", o->i);
       for (int q = 0; q < 4; q++) { if (q) putchar(','); pr_bytes(x->probe[q], x->plen[q] > 0 ? x->plen[q] : 0); }
       printf("]}\n");
       break;
-    case 'X': printf("{\"e\":\"Exec\",\"i\":%d,\"rax\":", o->i); pr_bytes(x->rax, 8); printf("}\n"); break;
-    case 'A': case 'N': {
+    case 'X': if (x->skipped) { printf("{\"e\":\"Skipped\",\"i\":%d}\n", o->i); break; }
+      printf("{\"e\":\"Exec\",\"i\":%d,\"rax\":", o->i); pr_bytes(x->rax, 8); printf("}\n"); break;
+    case 'A': case 'N': case 'T': case 'U': {
+      if (x->skipped) { printf("{\"e\":\"Skipped\",\"i\":%d}\n", o->i); break; }
       int lo = x->lo, hi = x->hi;
       if (y->lo >= 0 && (lo < 0 || y->lo < lo)) lo = y->lo;
       if (y->hi > hi) hi = y->hi;
@@ -268,9 +355,10 @@ static void print_events(const char *sid, struct op *ops, int nops, struct res *
                 (x->nout <= 0 || !memcmp(x->out, y->out, x->nout)) && x->steps_total == y->steps_total;
       int outside = x->outside ? x->outside : y->outside;
       printf("{\"e\":\"%s\",\"i\":%d,\"c\":%d,\"tag\":\"%s\",\"ret\":%d,\"off0\":%d,\"off1\":%d,\"dest\":%d,\"lo\":%d,\"hi\":%d,"
-             "\"outside\":%d,\"det\":%s,\"moved\":%s,\"hash\":%u,\"nsteps\":%d,\"out\":",
-             o->kind == 'N' ? "Count" : "Asm", o->i, o->kind == 'N' ? o->a : 0, o->tag, x->ret, x->off0, x->off1, x->dest, lo, hi,
-             outside, det ? "true" : "false", x->moved ? "true" : "false", x->hash, x->steps_total);
+             "\"outside\":%d,\"det\":%s,\"moved\":%s,\"hash\":%u,\"nsteps\":%d,\"lastcap\":%d,\"file\":%s,\"inj\":%s,\"calls\":\"%s\",\"out\":",
+             (o->kind == 'N' || o->kind == 'U') ? "Count" : "Asm", o->i, (o->kind == 'N' || o->kind == 'U') ? o->a : 0, o->tag, x->ret, x->off0, x->off1, x->dest, lo, hi,
+             outside, det ? "true" : "false", x->moved ? "true" : "false", x->hash, x->steps_total, x->lastcap,
+             (o->kind == 'T' || o->kind == 'U') ? "true" : "false", x->inj ? "true" : "false", x->calls);
       pr_bytes(x->out, x->nout > 0 ? x->nout : 0);
       printf(",\"outok\":%s,\"steps\":[", x->nout >= 0 ? "true" : "false");
       for (int q = 0; q < x->nsteps; q++)
@@ -340,11 +428,13 @@ int main(void) {
     case 'O': sscanf(ln + 2, "%d %15s %d", &o->i, o->s, &o->a); break;
     case 'K': case 'F': case 'G': sscanf(ln + 2, "%d %d", &o->i, &o->a); break;
     case 'W': sscanf(ln + 2, "%d %d %d %d %d", &o->a, &o->b, &o->c, &o->d, &o->e); break;
-    case 'A': hex[0] = 0; sscanf(ln + 2, "%d %7s %31s %1048575s", &o->i, o->flags, o->tag, hex); break;
-    case 'N': hex[0] = 0; sscanf(ln + 2, "%d %d %7s %31s %1048575s", &o->i, &o->a, o->flags, o->tag, hex); break;
+    case 'A': case 'T': hex[0] = 0; sscanf(ln + 2, "%d %7s %31s %1048575s", &o->i, o->flags, o->tag, hex); break;
+    case 'N': case 'U': hex[0] = 0; sscanf(ln + 2, "%d %d %7s %31s %1048575s", &o->i, &o->a, o->flags, o->tag, hex); break;
+    case 'B': hex[0] = 0; sscanf(ln + 2, "%d %1048575s", &o->i, hex); break;
+    case 'Z': sscanf(ln + 2, "%15s %d", o->s, &o->a); break;
     default: continue;
     }
-    if (ln[0] == 'A' || ln[0] == 'N') {
+    if (strchr("ANTUB", ln[0])) {
       size_t hl = strlen(hex);
       if (!strcmp(hex, "-")) hl = 0;
       o->text = malloc(hl / 2 + 1);
